@@ -83,13 +83,6 @@ Fixpoint memb (v : cval) (t : cty) {struct t} : bool :=
 Definition variants (t : cty) : list cty :=
   match t with TyUnion ts => ts | _ => [t] end.
 
-(* typing.rs union_type_ids: flatten one level; a single variant is that variant *)
-Definition mk_union (ts : list cty) : cty :=
-  match flat_map variants ts with
-  | [t] => t
-  | l => TyUnion l
-  end.
-
 (* structural equality *)
 Fixpoint cty_eqb (a b : cty) {struct a} : bool :=
   match a, b with
@@ -98,6 +91,20 @@ Fixpoint cty_eqb (a b : cty) {struct a} : bool :=
   | TyTup n ts, TyTup m us => oname_eqb n m && all2b cty_eqb ts us
   | TyUnion ts, TyUnion us => all2b cty_eqb ts us
   | _, _ => false
+  end.
+
+(* drop later structural duplicates *)
+Fixpoint dedup (l : list cty) : list cty :=
+  match l with
+  | [] => []
+  | t :: l' => t :: filter (fun u => negb (cty_eqb t u)) (dedup l')
+  end.
+
+(* typing.rs union_type_ids: flatten one level, deduplicate; a single variant is that variant *)
+Definition mk_union (ts : list cty) : cty :=
+  match dedup (flat_map variants ts) with
+  | [t] => t
+  | l => TyUnion l
   end.
 
 (* types.rs is_compatible (ALL mode) on this fragment: S assignable to T. Sound, not complete. *)
@@ -244,7 +251,7 @@ Section Core.
            (brs : list (pat * exp)) (rest : list cty) (acc : list cty) {struct brs} : option cty :=
     match brs with
     | [] =>
-        (* the default sees the complement *)
+        (* the default sees what the branches before it left over *)
         match inf ((x, mk_union rest) :: G) d with
         | Some td => Some (mk_union (acc ++ [td]))
         | None => None
@@ -254,8 +261,11 @@ Section Core.
         | None => None
         | Some ([], r) => infer_case inf x G d brs' r acc   (* cannot match: contributes nothing (F86) *)
         | Some (m, r) =>
+            (* the following branches see the complement - unless it is empty: the block is then
+               exhaustive and nothing is narrowed any further (compiler.rs compile_block: a never
+               complement sets is_exhaustive and is not accumulated) *)
             match inf (pat_binds p m ((x, mk_union m) :: G)) b with
-            | Some tb => infer_case inf x G d brs' r (acc ++ [tb])
+            | Some tb => infer_case inf x G d brs' (match r with [] => rest | _ => r end) (acc ++ [tb])
             | None => None
             end
         end
